@@ -20,6 +20,7 @@ func init() {
 var wPosition = map[string]string{"insert": "node", "delete": "node", "getBlockProof": "node", "markToCollect": "node"}
 
 func runC09(r *engine.Run) {
+	r.Rule("PRESENCE-byweight", "no comparison in core/util/wmpt takes a weight of 0 for absence (a weight compared with the constant 0): entries of weight 0 are entries whose hashes their ancestors commit to - a checkpoint copy that skips them, or a rollback that takes a zero-weight root for the empty trie, no longer stands for the checkpoint state")
 	r.Rule("ORDER-hashfresh", "see C10: a node's serialised form never embeds a cached hash that may be stale (Save hashes before it encodes): a reloaded value node hands its parent the recorded hash, so a stale one makes the root differ from the independent computation")
 	r.Rule("DOM-save", "see C11: every arm of commit puts its node into the batch before each success return (a short node that is not saved because 'the branch above carries it' is missing when it is the root: the committed trie cannot be reopened from its root hash)")
 	r.Rule("EXH-W", "in insert, delete, getBlockProof and markToCollect every type test of the position node (the walk's current, possibly collapsed node) for a kind other than *hashNode is preceded on every path by a *hashNode test of the position (dominating it), or leads on its failure edge to one before the function exits: a collapsed reference is resolved before it is interpreted as 'something else / empty'")
@@ -92,6 +93,7 @@ func runC09(r *engine.Run) {
 	lockRootWrite(r, "LOCK-rootwrite")
 	domSave(r)
 	orderHashFresh(r, "ORDER-hashfresh")
+	presenceByWeight(r, "PRESENCE-byweight")
 }
 
 func wfn(r *engine.Run, rule, name string) *ssa.Function {
